@@ -18,6 +18,7 @@ THEOREMS = {"Properties.C05": [
     "C05_read_has_lin_point", "C05_meta_has_lin_point", "C05_register_linearizable",
     "C05_real_time_order", "C05_linearisation_subsequence", "C05_read_value_written",
     "C05_read_sees_completed_write", "C05_pairing_refuted", "C05_pairing_refuted_bulk",
+    "C05_pairing_without_interleaved_write",
     "C05_insert_err_after_effect_witness", "C05_nonvacuous"]}
 PINS = {"Properties.C05": {
     "_preamble": "From Coq Require Import List NArith ZArith Bool Arith Sorted. From Kyro Require Import Model.TMap Model.Tiered Model.Conc05 Proofs.Conc05Proofs. Import ListNotations.",
@@ -100,6 +101,7 @@ def run(ctx):
         "directed schedules cover ONE preemption of call A (before each of its top-level critical sections) by one complete call B, 2 threads; more preemptions / 3 threads only through the OS-scheduled stress",
     ]
     proofs_ok = ctx.proof_phase(["Properties/C05.vo"], THEOREMS, pins=PINS)
+    ctx.say("proof phase done (%s)" % ("ok" if proofs_ok else "FAILED"))
 
     ok, log = build_driver()
     ctx.log("cargo.log", log)
@@ -113,6 +115,7 @@ def run(ctx):
     if summ is None:
         ctx.violation({"property": "C05", "kind": "harness-crashed", "log_tail": o[-3000:]}, no_input=True)
         return
+    ctx.say("driver: %d solo, %d directed, %d stress, %d oracle failures" % (summ["solo"], summ["directed"], summ["stress"], len(summ["oracle_failures"])))
     allc = json.load(open(os.path.join(out, "all_cases.json")))
     shards = [open(os.path.join(out, "cases_%d.v" % i)).read() for i in range(summ["shards"])]
     res = vlib.coq_eval("C05", shards)
@@ -127,6 +130,7 @@ def run(ctx):
             bad_parts[k] += vlib.parse_numbers(tags.get(k, "").split(":")[0])
         evaluated += vlib.parse_numbers(tags["count"].split(":")[0])[0]
     bad = sorted(set(bad))
+    ctx.say("coqc evaluated %d cases against the model, %d disagree" % (evaluated, len(bad)))
     pairing, unknown = split_failures(ctx, summ)
     ctx.cov.update({
         "evaluations": summ["cases"],
